@@ -79,6 +79,7 @@ def run(ctx, out):
         for k in range(reps):
             jobs.append({"scn": scn, "script": [], "seed": ctx.seed + 1000 + 31 * i + k, "test_mode": k % 2 == 0, "qmax": 100, "offsets": [0.0, 3.5, -2.25] if k % 3 else None})
     stats, index = rc.run_races(ctx, out, jobs, CLAUSES, "c01")
+    rc.binding_selftest(out, index)
     out.extra["schedule_steps_followed"] = stats["followed"]
     out.extra["schedule_steps_not_enabled"] = stats["skipped"]
     out.extra["races_run"] = len(jobs)
